@@ -105,6 +105,10 @@ def gen_histories(chk):
                 init = f'new:{tiny}:{g.bpr()}:1:{L.enc_elems(init_els)}'
                 for toks in L.exhaustive(g, init, depth, level):
                     add(g, toks, f'exh:cfg{ci}:L{level}:d{depth}')
+    for ci, (shape, kind, sizes, tiny) in enumerate(CONFIGS):
+        g = L.Gen(shape, kind, sizes, tiny)
+        for toks in L.seqop_core(g, tiny):
+            add(g, toks, f'exh:cfg{ci}:seqop')
     n_core = len(hists)
     # ---- random tail (seeded)
     rng = chk.rng
@@ -208,7 +212,8 @@ def coq_of_tokens(echo):
 
     def fn(s):
         p = s.split(',')
-        return {'add': 'FAdd', 'mul': 'FMul', 'lt': 'FLt', 'eq': 'FEq', 'neg': 'FNeg'}[p[0]] + (' ' + z(p[1]) if len(p) > 1 else '')
+        return {'add': 'FAdd', 'mul': 'FMul', 'lt': 'FLt', 'eq': 'FEq', 'neg': 'FNeg', 'or': 'FOr', 'and': 'FAnd',
+                'xor': 'FXor', 'shl': 'FShl', 'shr': 'FShr'}[p[0]] + (' ' + z(p[1]) if len(p) > 1 else '')
 
     out = []
     for t in echo:
@@ -246,6 +251,10 @@ def coq_of_tokens(echo):
             out.append('OConcat [' + ';'.join(f'({p[0]}%nat, {z(p[1])})' for p in ps) + ']')
         elif o == 'drop':
             out.append(f'ODrop {f[1]}')
+        elif o == 'opq':
+            g2 = {'add': 'BAdd', 'sub': 'BSub', 'mul': 'BMul', 'lt': 'BLt', 'eq': 'BEq', 'or': 'BOr', 'and': 'BAnd',
+                  'xor': 'BXor'}[f[2]]
+            out.append(f'OOpSeq {f[1]} {g2} {f[3]} {b(f[4])} {b(f[5])}')
     return '[' + '; '.join(out) + ']'
 
 
